@@ -668,6 +668,26 @@ def run(ctx):
         metas += g.ops(t, (10 if wide else 40) if not thorough else (16 if wide else 70), wide=bool(wide))
         if wide:
             metas.append(("rmall " + H(b"wide/"), "rmall", (b"wide",), None, (False, False, True, 0)))
+    # record-window boundaries of ReadDir's 512-byte buffer: directories mixing 24-byte records (names <= 4 bytes) with
+    # records of 264..280 bytes (names of 240..255 bytes), so that long records start at every offset of a window
+    rd = {}
+    for k in range(60 if not thorough else 600):
+        ents = {}
+        for j in range(g.r.range(0, 14)):
+            ents[b"%c%d" % (97 + j, g.r.below(10))] = ("f", b"")
+        for j in range(g.r.range(1, 3)):
+            ents[bytes([65 + j]) * g.r.range(240, 255)] = ("f", b"x") if g.r.chance(1, 2) else ("d", {})
+        rd[b"rd%03d" % k] = ("d", ents)
+    # ... and the tightest shape: `.`, `..` and eight 24-byte records (240 bytes) around one record of maximal length; the
+    # kernel's order is not ours to choose (hash order on ext4, newest first on tmpfs), so many differently named copies
+    for k in range(45 if not thorough else 450):
+        ents = {b"%c%c%d" % (97 + g.r.below(26), 97 + g.r.below(26), j): ("f", b"") for j in range(8)}
+        ents[bytes([75 + k % 10]) * (253 + k % 3)] = ("f", b"")
+        rd[b"re%03d" % k] = ("d", ents)
+    metas.append(("tree " + " ".join(dump_tokens(rd)), "tree", (), None, None))
+    for nm in sorted(rd):
+        metas.append(("readdir " + H(nm), "readdir", (nm,), None, (False, False, False, 0)))
+    metas.append(("rmall " + H(b"rd000"), "rmall", (b"rd000",), None, (False, False, False, 0)))
     metas.append(("end", "end", (), None, None))
     lines = [m[0] for m in metas]
     # run 1: twin mode (std::fs as observer and as reference), yields the kernel's directory order
